@@ -329,8 +329,29 @@ def check(ctx) -> Result:
                "I-experiment-structure", "ProcessTomography._create_circuit_and_input", cc.site(), cc.qualname, "fresh circuit: preparations on (2i, 2i+1), then the base circuit, then the measurement basis changes", "experiment construction idiom not recognised", construct="create")
     order = [c.lineno for c in walk_no_nested(cc.node) if isinstance(c, ast.Call) and src(c.func) == "circ.add"]
     calls = sorted([(c.lineno, src(c.args[0])) for c in walk_no_nested(cc.node) if isinstance(c, ast.Call) and src(c.func) == "circ.add"])
-    seq = ["INPUT" if "INPUT_MAPPING" in s else "BASE" if "base_circuit" in s else "MEAS" if "MEASUREMENT_MAPPING" in s else "?" for _, s in calls]
-    res.add(seq == ["INPUT", "BASE", "MEAS"], "I-experiment-structure", "order", cc.site(), cc.qualname, "preparation, process, measurement - in that order", f"experiment circuit is assembled in the order {seq}", construct=str(seq))
+    def _origin(text, depth=0):
+        """which table a value comes from, through loop variables and single-assignment locals"""
+        for tag, key in (("INPUT", "INPUT_MAPPING"), ("BASE", "base_circuit"), ("MEAS", "MEASUREMENT_MAPPING")):
+            if key in text:
+                return tag
+        if depth > 3:
+            return "?"
+        for nm in {x.id for x in ast.walk(ast.parse(text, mode="eval")) if isinstance(x, ast.Name)} if text else set():
+            for n_ in ast.walk(cc.node):
+                if isinstance(n_, (ast.For, ast.comprehension)) and any(isinstance(x, ast.Name) and x.id == nm for x in ast.walk(n_.target)):
+                    r_ = _origin(src(n_.iter), depth + 1)
+                    if r_ != "?":
+                        return r_
+                if isinstance(n_, ast.Assign) and any(isinstance(x, ast.Name) and x.id == nm for t_ in n_.targets for x in ast.walk(t_)):
+                    r_ = _origin(src(n_.value), depth + 1)
+                    if r_ != "?":
+                        return r_
+        return "?"
+    seq = [_origin(s) for _, s in calls]
+    if "?" in seq or not seq:
+        res.frozen(False, "I-experiment-structure", "order", cc.site(), cc.qualname, "", f"origin of the circuits added to the experiment not traced: {seq}", construct=str(seq))
+    else:
+        res.add(seq == ["INPUT", "BASE", "MEAS"], "I-experiment-structure", "order", cc.site(), cc.qualname, "preparation, process, measurement - in that order", f"experiment circuit is assembled in the order {seq}", construct=str(seq))
     # nothing is carried over between process() calls
     from ..rules import rf_cache
     for rel_, cn_ in ((LI, "LIProcessTomography"), (GF, "GateFidelity"), (MLE, "MLEProcessTomography")):
